@@ -206,6 +206,7 @@ func C11(run *report.Run) {
 		}
 	}
 	c11RacePass(run)
+	c11Synctest(run)
 	run.States = int64(scen)
 	run.Transitions = schedules
 	run.Validated = schedules
